@@ -17,6 +17,11 @@ claim("C15", "Coq theorems (Props/C15.v) for all event histories, all host lists
 claim("C11", "Coq theorems (Props/C11.v): for every query string, prepared id, result-metadata id, batch child list, consistency and every option tail (an arbitrary byte list, so all flags/values/paging/serial-consistency/timestamp/keyspace/now-in-seconds layouts) in every protocol version, the partial decoders accept the reference layout, return the reference fields, and re-encode to the identical bytes; on arbitrary byte lists they return Ok or Err, never panic or run out of fuel, and keep only a suffix of their input. Tied by a differential run of codecs.CustomRawCodec (DecodeBody at frame level incl. a custom-payload prefix, message Encode and EncodedLength) against bodies produced by the reference encoder for v3/v4/v5/DSEv1/DSEv2, all their prefixes, field mutations, random and boundary bytes.",
       "Coq kernel, no axioms; Model/Codec.v hand-written from codecs/partial_codecs.go; the reference layout grammar is itself validated against frame.NewRawCodec() output on every run; lengths of strings < 2^31 and ids < 2^16 are hypotheses (protocol limits).")
 
+claim("C05", "Coq theorems (Props/C05.v) over Model/Retry.v, whose four policy methods are regenerated from proxy/retrypolicy.go on every run: for every error response, retry count and idempotency class the decision is the documented one; for every environment (any per-attempt send failures and backend outcomes) the attempt sequence and reply equal the documented run, hosts are taken in plan order each at most once per traversal, a same-host attempt only follows that host's own answer, attempts <= hosts + 1 (+1 per successful re-prepare), 'no more hosts' exactly when the plan is exhausted, the loop terminates with a reply, and an idempotent request succeeds whenever a host of its plan answers successfully and the others fail in next-host-retried ways. Tied by direct calls of the policy on a boundary sweep and by scripted requests through the real proxy against a fake 3-host backend (exhaustive outcome sequences of length <= 2, random scripts under five sets of unreachable hosts, two-connection pools with one slot empty, a host with all 2048 stream ids in use, proxy-side idle close), comparing attempted hosts and the single reply.",
+      "Coq kernel, no axioms; request life-cycle hand-modelled from proxy/request.go + proxycore/clientconn.go (re-prepare continuation); policy methods translated by harness/cmd/vx; wall-clock aspects (how fast a pool reconnects) are outside the model.")
+claim("C04", "Coq theorems (Props/C04.v) over Model/Retry.v: for a request not classified idempotent, in every environment, an attempt whose outcome is not unavailable / bootstrapping / read timeout / unprepared is the last event of the run and the client receives exactly that error (or the connection-lost error); the only error decisions that re-send such a request are those three. Tied by scripted requests through the real proxy for 180 statement kinds whose class is known by construction (QUERY texts incl. now()/counter/LWT/delete-by-index/unparseable/batches, EXECUTE of ids prepared through the proxy or unknown to it, BATCH with every order of up to three children of five child types, graph payloads) against every outcome class, with the backend's own log counting executions.",
+      "Coq kernel, no axioms; classification of statement text is C06's subject (here the class is an input chosen by construction and compared with the proxy's behaviour); connection loss includes proxy-initiated idle close.")
+
 def chk(pid, c):
     return {"property_id": pid, "quick_cmd": "./check %s --tier quick" % pid, "thorough_cmd": "./check %s --tier thorough" % pid,
             "evidence_file": "/verif/evidence/%s.json" % pid, "replay_cmd_template": "./check %s --replay {path}" % pid,
